@@ -82,7 +82,7 @@ func H_C10_key_num() {
 	keyAgree(ref.Value("a", o), ref.Value("b", o), "number")
 }
 
-//verif:harness props=C10 tier=quick bounds="index keys of int64 within 2^53 against int64 within 2^53 (goes through the int->float64 key conversion)"
+//verif:harness props=C10 tier=thorough bounds="index keys of int64 within 2^53 against int64 within 2^53 (goes through the int->float64 key conversion)"
 func H_C10_key_ii() {
 	a, b := nd.Int64("a"), nd.Int64("b")
 	nd.Assume(a >= -(1<<53) && a <= (1<<53) && b >= -(1<<53) && b <= (1<<53))
